@@ -8,6 +8,7 @@ import (
 	"os"
 	"sort"
 	"strings"
+	"sync"
 	"testing"
 
 	v2 "mosn.io/mosn/pkg/config/v2"
@@ -28,6 +29,7 @@ const (
 	partWC      = "wcluster"       // rapid: generated weight vectors, complete draw space of each
 	partWCSmall = "wcluster-small" // plain: every vector in {0..4}^n, n <= 4, complete draw space
 	partWRR     = "wrr"            // rapid: weighted round robin over hosts, every window
+	partWRRSlow = "wrr-slowstart"  // rapid: the same with slow-start factors (fractional effective weights)
 	repeats     = 12               // each draw is repeated: Go map iteration presents different storage orders
 	fallback    = "verif-default-fallback"
 )
@@ -148,7 +150,9 @@ func evalWeighted(part string, names []string, weights []uint32) (infra error, f
 	probeRand := rand.New(probe)
 	sums := ownerSums(weights)
 	knownSeen := map[string]bool{}
-	desc := func() string { return fmt.Sprintf("clusters %v weights %v (configured order) total %d", names, weights, total) }
+	desc := func() string {
+		return fmt.Sprintf("clusters %v weights %v (configured order) total %d", names, weights, total)
+	}
 	judge := func(got string, d int) *wcFailure {
 		i, isCluster := idx[got]
 		switch {
@@ -597,6 +601,135 @@ func TestPropWRR(t *testing.T) {
 			ev.Fail(rt, partWRR, "wrr/window-lag-exceeds-bound",
 				"weights %v, %d picks: in the window of picks [%d,%d) host %d (w=%d) was served %d times and host %d (w=%d) %d times: |n_i*w_j - n_j*w_i| = %d > w_i + w_j = %d; window %s",
 				w, L, s, e, i, w[i], ni, j, w[j], nj, lag, w[i]+w[j], short(seq[s:e]))
+		}
+	})
+}
+
+// (c) weighted round robin with slow start: a host inside its slow-start window counts with weight x factor, and that
+// EFFECTIVE weight - fractional, below 1 for small weights - is what the window bound speaks about. The factor function
+// is MOSN's extension point (cluster.RegisterSlowStartMode): the harness registers a mode whose factor is a drawn
+// constant per host, so the effective weights are exact rationals (aggression 1, min_weight_percent 0.1):
+// w x g/20 with g in {20 (past the window), 18, 10, 5, 2, 2 (factor 1/20, raised to the 10% floor)}.
+const slowStartMode = "verif-fixed-factor"
+
+var (
+	ssOnce    sync.Once
+	ssFactors sync.Map // address -> factor
+)
+
+type ssFactor struct {
+	Label string
+	F     float64 // what the factor function returns
+	G     uint32  // effective multiplier in 20ths after the 10% floor
+}
+
+var ssTable = []ssFactor{{"past-window", 1.0, 20}, {"9/10", 0.9, 18}, {"1/2", 0.5, 10}, {"1/4", 0.25, 5}, {"1/10", 0.1, 2}, {"1/20(below-floor)", 0.05, 2}}
+
+func TestPropWRRSlowStart(t *testing.T) {
+	ssOnce.Do(func() {
+		cluster.RegisterSlowStartMode(types.SlowStartMode(slowStartMode), func(info types.ClusterInfo, host types.Host) float64 {
+			if f, ok := ssFactors.Load(host.AddressString()); ok {
+				return f.(float64)
+			}
+			return 1.0
+		})
+	})
+	ev.Check(t, func(rt *rapid.T) {
+		lb.Housekeep(256)
+		w := genHostWeights(rt)
+		fs := make([]ssFactor, len(w))
+		eff := make([]uint32, len(w)) // effective weights in 20ths
+		sum, below1, slowed := 0, false, 0
+		for i := range w {
+			fs[i] = ssTable[rapid.SampledFrom([]int{0, 0, 1, 2, 3, 4, 5}).Draw(rt, "factor")]
+			eff[i] = w[i] * fs[i].G
+			sum += int(eff[i])
+			if eff[i] < 20 {
+				below1 = true
+			}
+			if fs[i].G < 20 {
+				slowed++
+			}
+		}
+		L := sum + rapid.IntRange(0, sum).Draw(rt, "extra")
+		if L > 40000 {
+			L = 40000
+		}
+		viaCluster := rapid.Bool().Draw(rt, "viaCluster")
+		classes := []string{fmt.Sprintf("n=%d", len(w)), fmt.Sprintf("hosts-in-slow-start=%d", slowed)}
+		if below1 {
+			classes = append(classes, "effective-weight-below-1")
+		}
+		if slowed > 0 && slowed < len(w) {
+			classes = append(classes, "mixed-new-and-old-hosts")
+		}
+		if viaCluster {
+			classes = append(classes, "via-cluster-snapshot")
+		}
+		labels := make([]string, len(fs))
+		for i := range fs {
+			labels[i] = fs[i].Label
+		}
+		ev.Case(partWRRSlow, slowed > 0, []byte(fmt.Sprint("wrr-ss|", w, labels, L)), func() interface{} {
+			return map[string]interface{}{"weights": w, "slow_start_factors": labels, "picks": L}
+		}, classes...)
+
+		cfg := v2.Cluster{Name: lb.NextName("c06-wrrss"), ClusterType: v2.SIMPLE_CLUSTER, LbType: v2.LbType(types.WeightedRoundRobin),
+			SlowStart: v2.SlowStartConfig{Mode: slowStartMode, Aggression: 1.0, MinWeightPercent: 0.1}}
+		var balancer types.LoadBalancer
+		var hosts []types.Host
+		index := map[types.Host]int{}
+		mk := func(info types.ClusterInfo) {
+			for i, x := range w {
+				a := lb.NextAddr()
+				ssFactors.Store(a, fs[i].F)
+				h := lb.NewHost(info, a, x, nil)
+				hosts = append(hosts, h)
+				index[h] = i
+			}
+		}
+		defer func() {
+			for _, h := range hosts {
+				ssFactors.Delete(h.AddressString())
+			}
+		}()
+		if viaCluster {
+			c := cluster.NewCluster(cfg)
+			mk(c.Snapshot().ClusterInfo())
+			c.UpdateHosts(cluster.NewHostSet(hosts))
+			balancer = c.Snapshot().LoadBalancer()
+		} else {
+			info := cluster.NewClusterInfo(cfg)
+			mk(info)
+			balancer = cluster.NewLoadBalancer(info, cluster.NewHostSet(hosts))
+		}
+		ctx := lb.NewCtx(0, nil)
+		seq := make([]int, L)
+		for p := 0; p < L; p++ {
+			h := balancer.ChooseHost(ctx)
+			if h == nil {
+				ev.Fail(rt, partWRRSlow, "wrr/returned-no-host", "weights %v factors %v: pick %d of %d returned no host although all hosts are healthy", w, labels, p, L)
+			}
+			i, ok := index[h]
+			if !ok {
+				ev.Fail(rt, partWRRSlow, "wrr/returned-non-member", "weights %v: pick %d returned %s which is not in the host set", w, p, h.AddressString())
+			}
+			seq[p] = i
+		}
+		ev.Extra(partWRRSlow, "picks", int64(L))
+		if ok, i, j, s, e, lag := windowLag(seq, eff); !ok {
+			ni, nj := 0, 0
+			for _, h := range seq[s:e] {
+				if h == i {
+					ni++
+				}
+				if h == j {
+					nj++
+				}
+			}
+			ev.Fail(rt, partWRRSlow, "wrr/window-lag-exceeds-bound:slow-start",
+				"weights %v, slow-start factors %v (effective weights in 20ths: %v), %d picks: in the window of picks [%d,%d) host %d was served %d times and host %d %d times: |n_i*w_j - n_j*w_i| = %d > w_i + w_j = %d (effective weights); window %s",
+				w, labels, eff, L, s, e, i, ni, j, nj, lag, eff[i]+eff[j], short(seq[s:e]))
 		}
 	})
 }
